@@ -12,6 +12,7 @@ Definition struct_visible (p : list string) : bool :=
 (* model vs implementation: the hashes of two texts are equal exactly when their documents agree once external
    labels are blanked; the struct-only hash differs exactly when the edited setting is reached by the traversal *)
 Definition cfghash_agree (c : ch_case) : bool :=
+  ch_same_as_fresh c &&       (* the model's hash is a function of the document: no reload history can matter *)
   Bool.eqb (ydoc_eqb (blank_ext (ch_doc1 c)) (blank_ext (ch_doc2 c))) (ch_hash_equal c) &&
   match ch_path c with
   | [] => true
@@ -20,6 +21,7 @@ Definition cfghash_agree (c : ch_case) : bool :=
 
 (* C16 on the implementation: formatting and external labels never change the hash, any other setting does *)
 Definition c16_case (c : ch_case) : bool :=
+  ch_same_as_fresh c &&
   match ch_kind c with
   | EFormat | EExternal => ch_hash_equal c
   | ESetting => negb (ch_hash_equal c)
